@@ -169,6 +169,17 @@ func (lg *locGen) op() map[string]interface{} {
 			// behind, in the memory or in the storage)
 			f["rule"] = pick(r, 5.0, "x", map[string]interface{}{"when": 5.0}, map[string]interface{}{"schedule": 5.0}).(interface{})
 		}
+		if lg.profile == "search" && o["id"] == id && r.Intn(8) == 0 {
+			// an overwrite that the state REFUSES after it has prepared the fact: a rule body without a
+			// usable `when` (the rule index refuses it) or, with hooks, a fact the add hook vetoes; the
+			// stored fact must stay as it was - and findable by every later search
+			f = deepCopy(f).(map[string]interface{})
+			if lg.hooks && r.Intn(2) == 0 {
+				f["veto"] = true
+			} else {
+				f["rule"] = pick(r, map[string]interface{}{"when": 5.0}, map[string]interface{}{"action": "1"}).(interface{})
+			}
+		}
 		o["fact"] = f
 	case 1:
 		o["op"] = "addrule"
@@ -403,7 +414,7 @@ func genLocCase(r *rand.Rand, prof string) Case {
 	if prof == "cascade" && r.Intn(6) == 0 {
 		lg.ids = append(lg.ids, "?v") // variable-looking id (D14)
 	}
-	lg.hooks = prof == "dispatch" && r.Intn(3) == 0
+	lg.hooks = (prof == "dispatch" || prof == "search") && r.Intn(3) == 0
 	fuzzHooks := prof == "fuzz" && r.Intn(3) == 0
 	nlocs := 1
 	if prof == "forest" {
@@ -428,7 +439,7 @@ func genLocCase(r *rand.Rand, prof string) Case {
 			l["hooks"] = true
 			l["persistent"] = true
 		}
-		if prof == "dispatch" && lg.hooks {
+		if (prof == "dispatch" || prof == "search") && lg.hooks {
 			l["hooks"] = true
 			l["persistent"] = true
 		}
